@@ -2,6 +2,7 @@
     This file contains only statements closed by [exact] plus [Print Assumptions]. *)
 From Coq Require Import List NArith String.
 From GV Require Import Base.Ints Gen.Mappers Monitors.C09m Proofs.Mappers.
+From GV Require Import Model.OptTypes Model.Options Gen.Options Proofs.Options.
 Import ListNotations.
 Local Open Scope N_scope.
 
@@ -40,3 +41,26 @@ Theorem C09_mappers_panic_exactly_outside_enumeration : forall r, r < 256 ->
   (~ In r all_HandleVoteProofsResult -> is_ok (aav_map_vote r) = false /\ is_ok (dd_map_vote r) = false).
 Proof. exact outside_enumeration_panics. Qed.
 Print Assumptions C09_mappers_panic_exactly_outside_enumeration.
+
+(** (ii) Constructors: tmengine.New / tmengine.NewMirror over the option table extracted from opts.go.
+    Quantified over EVERY list of (option, value) pairs -- any subset, order, repetition, nil / rejected values --
+    and both chain states. *)
+Theorem C09_constructor_never_panics : forall chain_init opts site,
+  run_ctor ctor_New option_table chain_init opts <> CPanic site /\
+  run_ctor ctor_NewMirror option_table chain_init opts <> CPanic site.
+Proof. exact constructor_never_panics. Qed.
+Print Assumptions C09_constructor_never_panics.
+
+Theorem C09_constructor_reports_every_rejected_value : forall chain_init opts,
+  rejected_opts option_table opts <> [] ->
+  run_ctor ctor_New option_table chain_init opts = CError (rejected_opts option_table opts) /\
+  run_ctor ctor_NewMirror option_table chain_init opts = CError (rejected_opts option_table opts).
+Proof. exact constructor_reports_every_rejected_value. Qed.
+Print Assumptions C09_constructor_reports_every_rejected_value.
+
+Theorem C09_rejected_value_named : forall chain_init opts n a,
+  In (n, a) opts -> rejects option_table n a = true ->
+  (exists rep, run_ctor ctor_New option_table chain_init opts = CError rep /\ In n rep) /\
+  (exists rep, run_ctor ctor_NewMirror option_table chain_init opts = CError rep /\ In n rep).
+Proof. exact rejected_value_named. Qed.
+Print Assumptions C09_rejected_value_named.
